@@ -246,6 +246,70 @@ func init() {
 			}
 		}})
 
+	register(&Rule{ID: "C06.R7", Props: []string{"C06"}, Min: 1, Needs: NeedMain,
+		Doc: "typed skip: SkipTo reports a present field (have == true) without error only when its wire type equals the requested one — for required and optional fields alike",
+		Run: func(r *R) {
+			fn := r.w.Func(codecPkg, "Reader.SkipTo")
+			if fn == nil {
+				r.AnchorMissing("codec.(*Reader).SkipTo")
+				return
+			}
+			ty := fn.Params[1]
+			var have, tyCur ssa.Value
+			eachInstr(fn, func(in ssa.Instruction) {
+				if ex, ok := in.(*ssa.Extract); ok {
+					if c, ok := ex.Tuple.(*ssa.Call); ok && callIs(&c.Call, "~/"+codecPkg+".(Reader).SkipToNoCheck") {
+						if ex.Index == 0 {
+							have = ex
+						}
+						if ex.Index == 1 {
+							tyCur = ex
+						}
+					}
+				}
+			})
+			if have == nil || tyCur == nil {
+				r.Undecided(fname(fn), "type check", fn.Pos(), "SkipTo does not go through SkipToNoCheck")
+				return
+			}
+			// the mismatch branch: a non-nil error under `ty != tyCur`; it must be governed by `have` alone
+			okk, n := true, 0
+			for _, b := range fn.Blocks {
+				ret, ok := b.Instrs[len(b.Instrs)-1].(*ssa.Return)
+				if !ok || len(ret.Results) != 2 || !definitelyNonNilErr(ret.Results[1], b) {
+					continue
+				}
+				mismatch, present, extra := false, false, ""
+				for _, f := range facts(b) {
+					c, okc := normFact(f)
+					if !okc {
+						continue
+					}
+					if c.Op == token.NEQ && ((c.X == ssa.Value(ty) && c.Y == tyCur) || (c.Y == ssa.Value(ty) && c.X == tyCur)) {
+						mismatch = true
+						continue
+					}
+					if c.boolIs(have, true) {
+						present = true
+						continue
+					}
+					for _, p := range fn.Params {
+						if c.X == ssa.Value(p) {
+							extra = p.Name()
+						}
+					}
+				}
+				if !mismatch {
+					continue
+				}
+				n++
+				if !present || extra != "" {
+					okk = false
+				}
+			}
+			r.Check(okk && n > 0, fname(fn), "present field has the requested wire type", fn.Pos(), "every nil-error return is on the `type matches` or `field absent` edge", "SkipTo can return (have, nil) for a present field of another wire type (e.g. only required fields are type-checked): an optional map/struct field substituted by another type is reinterpreted instead of rejected")
+		}})
+
 	register(&Rule{ID: "C06.R5", Props: []string{"C06"}, Min: 20, Needs: NeedMain,
 		Doc: "inside the codec and tup packages every error returned by a read primitive (bReadU*, Read*, ReadByte, SkipTo*) is propagated to the caller (never dropped, never overwritten by nil)",
 		Run: func(r *R) {
